@@ -30,7 +30,8 @@ Conform(k) == LET r == E[k] IN DAct(r.act) /\ Match(r) /\ drift' = FALSE
 Resync(k) ==
   LET r == E[k] IN
   /\ ~ENABLED (DAct(r.act) /\ Match(r))
-  /\ drift' = TRUE /\ reg' = RegOf(r) /\ ros' = r.post.ros
+  /\ drift' = TRUE /\ ros' = r.post.ros     \* the declared requirements are ground truth: taken from the register call, never from the engine
+  /\ reg' = (IF r.act.op = "register" THEN [reg EXCEPT ![r.act.n] = SetOf(r.act.req)] ELSE reg)
   /\ obs' = [op |-> r.act.op, n |-> r.act.n, n2 |-> r.act.n2, req |-> SetOf(r.act.req), mode |-> r.act.mode,
              ran |-> [n \in Tools |-> r.obs.ran[n]], ok |-> r.obs.ok, ok2 |-> r.obs.ok2]
 Step(k) == /\ node' = k /\ pfail' = {c \in Clauses : ~Holds(c, E[k])}
